@@ -656,13 +656,14 @@ impl TryFrom<&mut Peekable<Lexer>> for ParserNode {
                                 ))
                             }
                             PseudoType::Mv => {
+                                // mv rd, rs == addi rd, rs, 0
                                 let rd = lex.get_reg()?;
                                 let rs1 = lex.get_reg()?;
-                                return Ok(ParserNode::new_arith(
-                                    With::new(ArithType::Add, next_node.clone()),
+                                return Ok(ParserNode::new_iarith(
+                                    With::new(IArithType::Addi, next_node.clone()),
                                     rd,
                                     rs1,
-                                    With::new(Register::X0, next_node.clone()),
+                                    With::new(Imm::new(0), next_node.clone()),
                                     lex.raw_token,
                                 ));
                             }
